@@ -1,6 +1,6 @@
 from mindsdb_sql import OrderBy
 from mindsdb_sql.exceptions import PlanningException
-from mindsdb_sql.parser.ast import Identifier, Operation, BinaryOperation, BetweenOperation
+from mindsdb_sql.parser.ast import Identifier, Operation, BinaryOperation, BetweenOperation, Tuple
 
 
 def find_time_filter(op, time_column_name):
@@ -61,7 +61,11 @@ def validate_ts_where_condition(op, allowed_columns, allow_and=True):
         raise PlanningException(
             f'For time series predictors only the following operations are allowed in WHERE: {str(allowed_ops)}, found instead: {str(op)}.')
 
+    args = []
     for arg in op.args:
+        # the values of an IN list are operands too
+        args.extend(arg.items if isinstance(arg, Tuple) else [arg])
+    for arg in args:
         if isinstance(arg, Identifier):
             if arg.parts[-1].lower() not in allowed_columns:
                 raise PlanningException(
